@@ -237,22 +237,23 @@ Proof.
   intros Hne (I1 & I2 & (A1 & A2 & A3)).
   assert (Hne2 : ~ In e (ekeys (hs d))) by (intro H; apply Hne; apply A2; exact H).
   unfold d_insert_edge. cbv zeta.
+  destruct (ensure_nodes_spec tl (hs d)) as (N2 & E2 & U2 & D2).
+  assert (Hne3 : ~ In e (ekeys (ensure_nodes tl (hs d)))) by (rewrite E2; exact Hne2).
   pose proof (Inv_insert_explicit e tl a (ts d) Hne I1) as J1.
-  pose proof (Inv_insert_explicit e hd [] (hs d) Hne2 I2) as J2.
+  pose proof (Inv_insert_explicit e hd [] (ensure_nodes tl (hs d)) Hne3 (D2 I2)) as J2.
   destruct (ensure_nodes_spec hd (bump_uid e (insert_edge e tl a (ts d)))) as (N1 & E1 & U1 & D1).
-  destruct (ensure_nodes_spec tl (bump_uid e (insert_edge e hd [] (hs d)))) as (N2 & E2 & U2 & D2).
-  destruct I1 as (W1a & K1a & V1a & _). destruct I2 as (W2a & K2a & V2a & _).
+  destruct I1 as (W1a & K1a & V1a & _). destruct (D2 I2) as (W2a & K2a & V2a & _).
   destruct (insert_edge_spec e tl a (ts d) Hne W1a K1a V1a) as (_ & _ & _ & Ek1 & Eu1 & _).
-  destruct (insert_edge_spec e hd [] (hs d) Hne2 W2a K2a V2a) as (_ & _ & _ & Ek2 & Eu2 & _).
-  split; [apply D1; exact J1|split; [apply D2; exact J2|]].
+  destruct (insert_edge_spec e hd [] (ensure_nodes tl (hs d)) Hne3 W2a K2a V2a) as (_ & _ & _ & Ek2 & Eu2 & _).
+  split; [apply D1; exact J1|split; [exact J2|]].
   split; [|split]; simpl.
-  - intro x. rewrite N1, N2. destruct (bump_uid_keys e (insert_edge e tl a (ts d))) as [B1 _].
-    destruct (bump_uid_keys e (insert_edge e hd [] (hs d))) as [B2 _].
-    rewrite B1, B2, !insert_edge_nkeys, A1. tauto.
-  - intro x. rewrite E1, E2. destruct (bump_uid_keys e (insert_edge e tl a (ts d))) as [_ B1].
-    destruct (bump_uid_keys e (insert_edge e hd [] (hs d))) as [_ B2].
-    rewrite B1, B2, Ek1, Ek2, !in_app_iff, A2. tauto.
-  - rewrite U1, U2. apply bump_uid_same_uid. rewrite Eu1, Eu2. exact A3.
+  - intro x. rewrite N1. destruct (bump_uid_keys e (insert_edge e tl a (ts d))) as [B1 _].
+    destruct (bump_uid_keys e (insert_edge e hd [] (ensure_nodes tl (hs d)))) as [B2 _].
+    rewrite B1, B2, !insert_edge_nkeys, N2, A1. tauto.
+  - intro x. rewrite E1. destruct (bump_uid_keys e (insert_edge e tl a (ts d))) as [_ B1].
+    destruct (bump_uid_keys e (insert_edge e hd [] (ensure_nodes tl (hs d)))) as [_ B2].
+    rewrite B1, B2, Ek1, Ek2, E2, !in_app_iff, A2. tauto.
+  - rewrite U1. apply bump_uid_same_uid. rewrite Eu1, Eu2, U2. exact A3.
 Qed.
 
 Lemma DInv_next d : DInv d -> DInv (d_next d).
@@ -262,32 +263,41 @@ Proof.
   split; [exact A1|split; [exact A2|]]. simpl. lia.
 Qed.
 
+Lemma ensure_nodes_with_uid ns u : forall s, ensure_nodes ns (with_uid s u) = with_uid (ensure_nodes ns s) u.
+Proof.
+  unfold ensure_nodes. induction ns as [|n ns IH]; intro s; [reflexivity|]. cbn [fold_left].
+  assert (E : ensure_node n (with_uid s u) = with_uid (ensure_node n s) u).
+  { unfold ensure_node. cbn [h_node with_uid]. destruct (has n (h_node s)); reflexivity. }
+  rewrite E. apply IH.
+Qed.
+
 Lemma DInv_insert_auto tl hd a d :
   DInv d -> DInv (d_insert_edge false (LInt (h_uid (ts d))) tl hd a (d_next d)).
 Proof.
   intros (I1 & I2 & (A1 & A2 & A3)).
   unfold d_insert_edge, d_next, both. cbv zeta. simpl ts. simpl hs.
+  destruct (ensure_nodes_spec tl (hs d)) as (N2 & E2 & U2 & D2).
+  rewrite ensure_nodes_with_uid.
+  set (h1 := ensure_nodes tl (hs d)) in *.
   pose proof (Inv_insert_auto tl a (ts d) I1) as J1.
-  pose proof (Inv_insert_auto hd [] (hs d) I2) as J2. rewrite <- A3 in J2.
+  pose proof (Inv_insert_auto hd [] h1 (D2 I2)) as J2. rewrite U2, <- A3 in J2.
   set (e := LInt (h_uid (ts d))) in *.
-  set (t0 := with_uid (ts d) (h_uid (ts d) + 1)) in *. set (h0 := with_uid (hs d) (h_uid (hs d) + 1)).
-  assert (h0 = with_uid (hs d) (h_uid (ts d) + 1)) as Eh0 by (unfold h0; rewrite A3; reflexivity).
-  rewrite <- Eh0 in J2.
+  rewrite <- A3. set (t0 := with_uid (ts d) (h_uid (ts d) + 1)) in *.
+  set (h0 := with_uid h1 (h_uid (ts d) + 1)) in *.
   destruct (ensure_nodes_spec hd (insert_edge e tl a t0)) as (N1 & E1 & U1 & D1).
-  destruct (ensure_nodes_spec tl (insert_edge e hd [] h0)) as (N2 & E2 & U2 & D2).
   assert (Hne : ~ In e (ekeys t0)) by (apply (auto_id_fresh_aux (ts d) I1)).
   assert (Hne2 : ~ In e (ekeys h0)).
-  { intro H. apply Hne. apply A2. exact H. }
-  destruct I1 as (W1a & K1a & V1a & _). destruct I2 as (W2a & K2a & V2a & _).
+  { intro H. apply Hne. change (ekeys h0) with (ekeys h1) in H. rewrite E2 in H. apply A2. exact H. }
+  destruct I1 as (W1a & K1a & V1a & _). destruct (D2 I2) as (W2a & K2a & V2a & _).
   destruct (insert_edge_spec e tl a t0 Hne W1a K1a V1a) as (_ & _ & _ & Ek1 & Eu1 & _).
   destruct (insert_edge_spec e hd [] h0 Hne2 W2a K2a V2a) as (_ & _ & _ & Ek2 & Eu2 & _).
-  split; [apply D1; exact J1|split; [apply D2; exact J2|]].
+  split; [apply D1; exact J1|split; [exact J2|]].
   split; [|split]; simpl.
-  - intro x. rewrite N1, N2, !insert_edge_nkeys. change (nkeys t0) with (nkeys (ts d)).
-    change (nkeys h0) with (nkeys (hs d)). rewrite A1. tauto.
-  - intro x. rewrite E1, E2, Ek1, Ek2, !in_app_iff. change (ekeys t0) with (ekeys (ts d)).
-    change (ekeys h0) with (ekeys (hs d)). rewrite A2. tauto.
-  - rewrite U1, U2, Eu1, Eu2. unfold t0, h0. simpl. lia.
+  - intro x. rewrite N1, !insert_edge_nkeys. change (nkeys t0) with (nkeys (ts d)).
+    change (nkeys h0) with (nkeys h1). rewrite N2, A1. tauto.
+  - intro x. rewrite E1, Ek1, Ek2, !in_app_iff. change (ekeys t0) with (ekeys (ts d)).
+    change (ekeys h0) with (ekeys h1). rewrite E2, A2. tauto.
+  - rewrite U1, Eu1. transitivity (h_uid h0); [reflexivity|symmetry; exact Eu2].
 Qed.
 
 Lemma DInv_add_edge tl hd idx a d : DInv d -> DInv (dst_of (d_add_edge tl hd idx a d)).
